@@ -159,7 +159,8 @@ def handleC02 (op : String) (args : Array Json) : Option Json := do
       | Json.null => some none
       | v => (parseAtom v).map some
     let ag ← jBool? (arg args 5)
-    some (Json.bool (missingWhere ag (guardState ch pk soft un)))
+    let after := (jBool? (arg args 6)).getD false   -- an earlier condition-free query ran on the same statement
+    some (Json.bool (missingWhere ag (if after then guardStateAfterQuery ch pk soft un else guardState ch pk soft un)))
   | _ => none
 
 end Gorm.Drv
